@@ -119,13 +119,21 @@ pub struct Case {
     /// under the chain-aware validator (funding confirmed)
     #[serde(default)]
     pub onchain: bool,
+    /// the policy carries a filter that demotes every tag family except the mutual-close and on-chain-format ones to a
+    /// warning (the policy stays non-permissive for everything C07 names)
+    #[serde(default)]
+    pub filtered: bool,
 }
 
-fn pol() -> lightning_signer::policy::simple_validator::SimplePolicy {
+fn pol(filtered: bool) -> lightning_signer::policy::simple_validator::SimplePolicy {
     policy_with(|p| {
         p.epsilon_sat = EPS;
         p.min_feerate_per_kw = 500;
         p.max_feerate_per_kw = 20_000;
+        if filtered {
+            // the canonical-form comparison of the raw entry point reports under policy-onchain-format-standard
+            p.filter = unrelated_filter(&["policy-mutual", "policy-onchain"]);
+        }
     })
 }
 
@@ -214,7 +222,7 @@ fn run_case(case: &Case) -> Res {
     v.upfront = case.upfront;
     v.onchain = case.onchain;
     let mut cfg = WorldCfg::default();
-    cfg.policy = Some(pol());
+    cfg.policy = Some(pol(case.filtered));
     // allowlist at setup time: the foreign script 1 (used as upfront script and as "allowlisted")
     cfg.allowlist = vec![foreign_address(1, cfg.network)];
     let ch = match open(cfg, &v) {
@@ -480,7 +488,7 @@ fn within(a: u64, b: u64) -> bool {
 
 /// The statement, for an explicit assignment of outputs to parties.
 fn ref_assignment(v: &SetupV, vw: &Views, to_holder: u64, to_cp: u64, hs: &Option<ScriptBuf>, script_ok: bool, upfront: &Option<ScriptBuf>, weight: u128, vals: (u64, u64, u64, u64)) -> Result<(), String> {
-    let p = pol();
+    let p = pol(false);
     if !vw.hc.out.is_empty() || !vw.hc.inc.is_empty() || !vw.cc.out.is_empty() || !vw.cc.inc.is_empty() {
         return Err("htlc-pending".into());
     }
@@ -564,7 +572,7 @@ fn reference(case: &Case, v: &SetupV, vw: &Views, b: &Built, vals: (u64, u64, u6
 }
 
 fn alphabet(case: &Case) -> Vec<Dev> {
-    let p = pol();
+    let p = pol(false);
     let mut v = vec![];
     let e = EPS as i64;
     for d in [-e - 1, -e, -1, 1, e, e + 1] {
@@ -615,10 +623,14 @@ fn all_cases(tier: Tier) -> (Vec<Case>, Vec<Case>) {
                 }
                 for upfront in 0..3u8 {
                     for phase1 in [false, true] {
-                        bases.push(Case { st: *st, outbound, anchors, upfront, phase1, devs: vec![], onchain: false });
+                        bases.push(Case { st: *st, outbound, anchors, upfront, phase1, devs: vec![], onchain: false, filtered: false });
+                        // the same with the other tag families demoted to warnings
+                        if !anchors && (tier == Tier::Thorough || upfront == 0) && matches!(st, St::Equal | St::Skew(_) | St::HtlcCpOnly) {
+                            bases.push(Case { st: *st, outbound, anchors, upfront, phase1, devs: vec![], onchain: false, filtered: true });
+                        }
                         // the same under the chain-aware validator (quick: two states, no upfront script)
                         if !anchors && (tier == Tier::Thorough || (upfront == 0 && matches!(st, St::Equal | St::HtlcCpOnly))) {
-                            bases.push(Case { st: *st, outbound, anchors, upfront, phase1, devs: vec![], onchain: true });
+                            bases.push(Case { st: *st, outbound, anchors, upfront, phase1, devs: vec![], onchain: true, filtered: false });
                         }
                     }
                 }
